@@ -39,7 +39,9 @@ TC13 == << TC(FALSE, 389, 254, 0, 0, 1, <<M("a", 8), Z4, Z4, Z4>>) >>
 D1 == <<17, 18, 19, 20, 21, 22, 23, 24>>
 D2 == <<33, 34, 35, 36, 37, 38, 39, 40>>
 L13 == {<<"nmt", 1>>, <<"nmt", 2>>, <<"nmt", 128>>, <<"rpdo", 517, D1>>, <<"rpdo", 517, D2>>, <<"rpdo", 773, D1>>, <<"rpdo", 773, D2>>, <<"rpdo", 1029, D1>>, <<"rpdo", 518, D1>>,
-        <<"sync", 128>>, <<"sync", 129>>, <<"wr", "a", <<99>>>>, <<"api", "l", <<1, 1, 1, 1>>>>}
+        <<"sync", 128>>, <<"sync", 129>>, <<"wr", "a", <<99>>>>, <<"api", "l", <<1, 1, 1, 1>>>>,
+        \* reconfiguration of the synchronous RPDO #2 while a frame may be waiting for its SYNC
+        <<"cfg", "cid", FALSE, 2, <<5, 3, 0, 128>>>>, <<"cfg", "cid", FALSE, 2, <<5, 3, 0, 0>>>>, <<"cfg", "type", FALSE, 2, 254>>, <<"cfg", "type", FALSE, 2, 1>>}
 P13 == << <<"rd", "a">>, <<"rd", "b">>, <<"rd", "w">>, <<"rd", "l">>, <<"sync", 128>>, <<"rd", "b">>, <<"rd", "l">>, <<"nmt", 1>>, <<"rpdo", 773, D2>>, <<"sync", 128>>, <<"sync", 128>>, <<"rd", "l">> >>
 \* ---- C14: one TPDO (a, w; valid, event driven) and one RPDO (b; valid); configuration writes in every state
 TC14 == << TC(FALSE, 389, 254, 0, 0, 2, <<M("a", 8), M("w", 16), Z4, Z4>>) >>
